@@ -83,6 +83,8 @@ type finding struct {
 	TreeContains []string `json:"tree_contains,omitempty"`
 	// WhereContains: the violation's location must contain each substring.
 	WhereContains []string `json:"where_contains,omitempty"`
+	// TreeContainsAny: at least one of these occurs in the tree description.
+	TreeContainsAny []string `json:"tree_contains_any,omitempty"`
 	// ObservedContains: the observed value must contain each substring.
 	ObservedContains []string `json:"observed_contains,omitempty"`
 	Commit           string   `json:"commit,omitempty"`
@@ -123,6 +125,17 @@ func (k *finding) applies(v props.Violation, tree string) bool {
 	}
 	for _, c := range k.TreeContains {
 		if !strings.Contains(tree, c) {
+			return false
+		}
+	}
+	if len(k.TreeContainsAny) > 0 {
+		any := false
+		for _, c := range k.TreeContainsAny {
+			if strings.Contains(tree, c) {
+				any = true
+			}
+		}
+		if !any {
 			return false
 		}
 	}
